@@ -115,6 +115,26 @@ def handleSd (args impl : List String) : String :=
     | some m => if b01 m == v then "OK nt=1" else s!"VIOL clause=ge.same_direction m={b01 m}"
   | _, _ => "BAD"
 
+/-- sincosd / atan2d against the library functions in radians: exact-degree argument reduction
+    may only improve on them, so 4 ulp of 1 is the agreement demanded -/
+def handleScd (args impl : List String) : String :=
+  match fls args, fls impl with
+  | some [x], some [sn, cs] =>
+    let r := x * (3.141592653589793 / 180.0)
+    -- the plain radian evaluation loses relative accuracy for large |x|: allow for it
+    let tol := 1e-15 * (4.0 + Float.abs x / 45.0)
+    if Float.abs (sn - Float.sin r) ≤ tol ∧ Float.abs (cs - Float.cos r) ≤ tol then "OK nt=1"
+    else s!"VIOL clause=ge.sincosd x={x} sin={sn} cos={cs} want={Float.sin r},{Float.cos r}"
+  | _, _ => "BAD"
+
+def handleAtd (args impl : List String) : String :=
+  match fls args, fls impl with
+  | some [y, x], some [a] =>
+    let want := Float.atan2 y x * (180.0 / 3.141592653589793)
+    if Float.abs (a - want) ≤ 1e-13 * (1.0 + Float.abs want) then "OK nt=1"
+    else s!"VIOL clause=ge.atan2d y={y} x={x} got={a} want={want}"
+  | _, _ => "BAD"
+
 def angDiff (a b : Float) : Float :=
   let d := a - b
   Float.abs (d - 360.0 * Float.round (d / 360.0))
@@ -157,6 +177,8 @@ def handle (args : List String) (impl : List String) : String :=
   | "dtl" :: rest => handleDtl rest impl
   | "meet" :: rest => handleMeet rest impl
   | "sd" :: rest => handleSd rest impl
+  | "scd" :: rest => handleScd rest impl
+  | "atd" :: rest => handleAtd rest impl
   | "rt" :: rest => handleRt rest impl
   | "ix" :: rest => handleIx rest impl
   | _ => "BAD"
